@@ -431,6 +431,12 @@ def main(argv=None):
             discharged += 1
             continue
         in_base = baseline.get(oid) == "discharged" or (oid in known_oids)
+        if not in_base and d["kind"] in ("raises-only", "frame", "provenance"):
+            # these obligations only materialise when something goes wrong (a disallowed exception is
+            # raised / an undeclared field is written): on the reference tree they held vacuously for
+            # every function that has baseline obligations
+            fpfx = oid.rsplit(":", 1)[0] if d["kind"] == "raises-only" else ":".join(oid.split(":")[:2])
+            in_base = any(b.startswith(fpfx + ":") for b in baseline)
         if d["status"] == "sat" and d["kind"] == "provenance":
             # structural (syntactic provenance) obligation: its failure is not a counterexample
             undecided.append(f"{oid}: provenance could not be established ({d.get('detail', '')[:120]})")
